@@ -488,6 +488,7 @@ class FnDirective:
         self.params = None    # positional names for the parameters (alpha-renaming, rule R7)
         self.loop_end = {}    # n -> lines inserted before the closing brace of the n-th loop body
         self.loop_begin = {}  # n -> lines inserted after the opening brace of the n-th loop body
+        self.before_loop = {} # n -> lines inserted before the n-th loop statement
 
 
 def parse_opts(rest):
@@ -589,6 +590,12 @@ def apply_fn(d, log, fnmap, out_lineno):
         be = rs.match_close(body, bk, bo)
         pos = bo + 1 if begin else be
         edits.append((pos, pos, '\n' + '\n'.join(lines) + '\n'))
+    for n, lines in d.before_loop.items():
+        if n < 1 or n > len(loops):
+            raise Undecided('lost anchor: loop %d of %s (has %d loops)' % (n, d.spec, len(loops)))
+        kw, ks, bo = loops[n - 1]
+        # a labelled loop (`'a: loop`) keeps its label with the loop
+        edits.append((ks, ks, '\n'.join(lines) + '\n'))
     for n, lines in d.after_loop.items():
         if n < 1 or n > len(loops):
             raise Undecided('lost anchor: loop %d of %s (has %d loops)' % (n, d.spec, len(loops)))
@@ -861,6 +868,9 @@ def expand(template_path, out_path, extra_tail=''):
                     elif c2.startswith('params '):
                         d.params = c2[7:].split()
                         cur = None
+                    elif c2.startswith('before-loop '):
+                        cur = []
+                        d.before_loop[int(c2.split()[1])] = cur
                     elif c2.startswith('loop-end '):
                         cur = []
                         d.loop_end[int(c2.split()[1])] = cur
